@@ -99,8 +99,10 @@ func describe(v *Val) string {
 func (e *Env) resolveType(text string) (types.Type, Sort, error) {
 	text = strings.TrimSpace(text)
 	switch text {
-	case "int", "int64":
+	case "int":
 		return types.Typ[types.Int], SInt, nil
+	case "int64":
+		return types.Typ[types.Int64], SInt, nil
 	case "string":
 		return types.Typ[types.String], SStr, nil
 	case "bool":
@@ -465,7 +467,7 @@ func (e *Env) evalIdent(name string) (*Val, error) {
 	if obj := e.lookupObject(name); obj != nil {
 		return e.objectVal(obj)
 	}
-	return nil, fmt.Errorf("unknown identifier %q", name)
+	return nil, fmt.Errorf("unknown identifier %q (vars %v)", name, e.dbgVars())
 }
 
 func (e *Env) objectVal(obj types.Object) (*Val, error) {
@@ -1016,6 +1018,82 @@ func (e *Env) evalCall(n *ECall) (*Val, error) {
 				return nil, err
 			}
 			return scalar(tAnd(tNot(tEq(a.T, tNull)), tEq(tApp(SInt, "dyntype", a.T), c.typeID(tt))), boolT), nil
+		case "cbpost":
+			// cbpost(f): the postconditions of the function literal f for a call that returned a nil error (its other
+			// results and its arguments are arbitrary). True when f is not a literal of the calling function with a contract.
+			if len(n.Args) < 1 {
+				return nil, fmt.Errorf("cbpost(f, args...)")
+			}
+			fv, err := e.eval(n.Args[0])
+			if err != nil {
+				return nil, err
+			}
+			fr := e.frame
+			if fr == nil {
+				fr = &Frame{c: c}
+			}
+			cenv, cbc := fr.closureEnv(fv, e.st)
+			if cenv == nil {
+				return scalar(tTrue, boolT), nil
+			}
+			fn := fv.Clo.Fn
+			// explicit arguments replace the arbitrary ones
+			for i, ax := range n.Args[1:] {
+				if i >= len(cbc.Params) {
+					break
+				}
+				av, err := e.eval(ax)
+				if err != nil {
+					return nil, err
+				}
+				cenv.vars[cbc.Params[i]] = withType(av, fn.Signature.Params().At(i).Type())
+			}
+			post := cenv.child()
+			post.st = e.st
+			var rs []*Val
+			res := fn.Signature.Results()
+			for i := 0; i < res.Len(); i++ {
+				if i == res.Len()-1 && res.At(i).Type().String() == "error" {
+					rs = append(rs, scalar(tNull, res.At(i).Type()))
+				} else {
+					rs = append(rs, c.freshVal("cb_res", res.At(i).Type()))
+				}
+			}
+			var rv *Val
+			switch len(rs) {
+			case 0:
+				rv = &Val{}
+			case 1:
+				rv = rs[0]
+			default:
+				rv = &Val{Fs: rs}
+			}
+			cbc.bindResults(post, rv)
+			var parts []*Term
+			nUnsup := len(c.unsup)
+			for _, cl := range cbc.C.Clauses {
+				if cl.Kind != "ensures" {
+					continue
+				}
+				t, err := post.evalBool(cl.Expr)
+				if err != nil {
+					continue // e.g. clauses over old(): the literal's entry state is not known here
+				}
+				parts = append(parts, t)
+			}
+			c.unsup = c.unsup[:nUnsup]
+			return scalar(tAnd(parts...), boolT), nil
+		case "trunc":
+			// float64 -> int64 conversion as Go does it (toward zero)
+			a, err := e.evalArgs(n.Args)
+			if err != nil {
+				return nil, err
+			}
+			if len(a) != 1 || a[0].T == nil || a[0].T.Sort != SReal {
+				return nil, fmt.Errorf("trunc(float64)")
+			}
+			fr := &Frame{c: c}
+			return fr.convert(nil, a[0], types.Typ[types.Float64], types.Typ[types.Int64]), nil
 		case "bytes":
 			a, err := e.evalArgs(n.Args)
 			if err != nil {
@@ -1387,4 +1465,15 @@ func (e *Env) applySpecBody(sf *SpecFunc, args []Expr, forceBody bool) (*Val, er
 	e.expanding["spec:"+sf.Name] = true
 	defer delete(e.expanding, "spec:"+sf.Name)
 	return ne.eval(sf.Body)
+}
+
+func (e *Env) dbgVars() []string {
+	var out []string
+	for x := e; x != nil; x = x.parent {
+		for k := range x.vars {
+			out = append(out, k)
+		}
+		out = append(out, "|")
+	}
+	return out
 }
